@@ -248,6 +248,12 @@ class controller {
 
  public:
   bool log_uncontrolled{false};
+  // true once deadlock / budget detection has released every thread ("exactly one thread runs" no longer holds);
+  // not to be called from inside a hook callback of this controller (takes the controller's mutex)
+  bool free_running() {
+    std::lock_guard<std::mutex> l(mu);
+    return free_run;
+  }
 
  private:
   std::mutex mu;
